@@ -80,8 +80,16 @@ def gen_plan(rng, tier="quick"):
         "data": {"kind": "peaked", "seed": rng.randrange(10**6), "zero_at": -1, "nan_at": -1},
         "spec_last": rng.random() < 0.85,
     }
+    if rng.random() < 0.1:
+        recipe["dir_first"] = True
     op = O.gen_op(rng, recipe, pool)
     cls = O.tol_class(op)
+    if op["m"] in ("ptm1", "ptm2", "ptm3", "hp01") and rng.random() < (0.12 if tier == "thorough" else 0.06):
+        # large spectral grids (>= 1000 bins): code paths that switch on size (thresholded fast paths)
+        recipe["nf"] = rng.choice([25, 30, 32, 36, 40])
+        recipe["nd"] = rng.choice([36, 36, 48, 72])
+        nf, nd = recipe["nf"], recipe["nd"]
+        dims[:] = [[k, min(n, 3)] for k, n in dims]
     if cls == "exact" or op["m"] in O.PARTITIONS or op["m"] == "smooth":
         recipe["data"]["kind"] = "int_bumps"
     elif rng.random() < 0.3:
@@ -417,6 +425,7 @@ def simplify(plan):
                     p["chunks"][dim] = 1
             variant(setk)
     variant(lambda p: p["recipe"].update(spec_last=True))
+    variant(lambda p: p["recipe"].pop("dir_first", None))
     variant(lambda p: p["recipe"]["dir"].update(order="asc", dir0=0.0))
     variant(lambda p: p["recipe"]["freq"].update(kind="log", f0=0.04, r=1.1))
     variant(lambda p: p["recipe"]["data"].update(zero_at=-1))
